@@ -119,6 +119,8 @@ func chanUses(p *Prog, f *types.Var) []chanUse {
 
 func c18(r *Report, s *Sem) {
 	p := r.P
+	R14 := r.Rule("R14", "a handshake that completed is reported as such whatever the serving context does meanwhile: no return of the server's EstablishSession hands back ctx.Err() itself (returned at the tail, a Close landing right after the established envelope makes the server drop an established session without callbacks or a finished envelope)", 1)
+	defer checkHandshakeVerdictNotContext(r, s, R14)
 	defer r.Import(s, "C15", "K", "R13", "closing with a stalled client still winds the session down: the TCP write wrapper re-checks its context on every retry (checked once before the loop, the finishing write of a session whose client stopped reading spins for ever and the finished callback never fires)", 2, "(K2)")
 	R12 := r.Rule("R12", "stops its own listener and no other: a listener that registers itself in a package-level table removes, in Close, the entry under a field that its Listen stored from the very key it registered under", 1)
 	defer checkUnregistersWhatItRegistered(r, s, R12)
